@@ -13,7 +13,7 @@ RULE = ('Base documents: fixtures, generated valid documents, documents with 1-4
         'acknowledgement are identical for the original and every re-encoding. non-trivial = distinct (document, encoding) pairs where the document has >=1 error.')
 ASSUMPTIONS = ['message strings and HTML are not compared (they legitimately contain delimiters)', 'source line numbers are compared as segment ordinals, which re-encoding preserves',
                'acknowledgement envelope lines (ISA/GS/ST/SE/GE/IEA, which carry timestamps and generated control numbers) are excluded']
-REQUIRED_COUNTERS = ['bases:later-isa-not-106-characters', 'bases:with-data-less-segment', 'bases:with-empty-or-blank-segment', 'bases:with-trailing-separator-or-leading-blank', 'bases:longer-than-one-read-buffer', 'bases', 'bases:with-errors', 'bases:valid', 'encodings', 'encodings:control-char-delimiter', 'encodings:eol:', 'encodings:eol:\\r\\n', 'encodings:eol:\\n', 'encodings:eol:mixed']
+REQUIRED_COUNTERS = ['bases:later-isa-not-106-characters', 'bases:with-data-less-segment', 'bases:with-empty-or-blank-segment', 'bases:with-trailing-separator-or-leading-blank', 'bases:longer-than-one-read-buffer', 'bases', 'bases:with-errors', 'bases:valid', 'encodings', 'encodings:control-char-delimiter', 'encodings:eol:', 'encodings:eol:\\r\\n', 'encodings:eol:\\n', 'encodings:eol:mixed', 'bases:5010-with-other-repetition-separator', 'bases:repeatable-composite-with-several-components', 'encodings:caret-between-components']
 MIN_CASES = {'quick': 900, 'thorough': 30000}
 WATCHDOG_S = {'quick': 1200, 'thorough': 7200}
 
@@ -66,7 +66,7 @@ def judge(ctx, base, charset, case, sigs, k_enc):
     for j in range(k_enc):
         rng = ctx.sub_rng('enc', repr(case.get('k')), j)
         try:
-            st, et, sb, eol = reencode.pick_terms(rng, base, charset, ctrl_ele=(j == 1), fmt_ele=(j == 2))      # one encoding per base with FS/GS/RS/US/tab between elements
+            st, et, sb, eol = reencode.pick_terms(rng, base, charset, ctrl_ele=(j == 1), fmt_ele=(j == 2), force_sub=('^' if j == 3 else None))      # one encoding per base with FS/GS/RS/US/tab between elements
             if not ctx.quick and j == 0:
                 used = reencode.data_chars(base)
                 if '\n' not in used and '\r' not in used:
@@ -82,6 +82,8 @@ def judge(ctx, base, charset, case, sigs, k_enc):
             ctx.count('encodings:control-char-delimiter')
         if st == '\n':
             ctx.count('encodings:newline-terminator')
+        if sb == '^':
+            ctx.count('encodings:caret-between-components')
         obs, res = observe(text, charset)
         c2 = dict(case, encoding=[st, et, sb, eol])
         if obs is None:
@@ -137,6 +139,17 @@ def run(ctx):
             if f is not None:
                 doc = f.doc
                 kinds.append(f.kind)
+        if e['icvn'] == '00501' and rng.random() < 0.4:
+            # a 5010 header naming another repetition separator than '^' (nothing in these documents repeats): '^' is then a character like any
+            # other and, under the extended set, an admissible component separator
+            used_ = reencode.data_chars(doc.text())
+            cands_ = [c for c in '!&+=;,?' if c not in used_]
+            if cands_:
+                doc = faults.clone(doc)
+                for r_ in doc.recs:
+                    if r_.node.id == 'ISA':
+                        r_.vals[10] = cands_[0]
+                ctx.count('bases:5010-with-other-repetition-separator')
         isas = [r_ for r_ in doc.recs if r_.node.id == 'ISA']
         if len(isas) >= 2 and rng.random() < 0.5:
             # a later interchange header that is not 106 characters long (ISA13 one digit short / one long): only the first header is fixed-width
@@ -178,6 +191,47 @@ def run(ctx):
         case = {'map': e['file'], 'faults': kinds, 'charset': cs, 'k': ['c12', ctx.shard, k], 'text': text if len(text) < 150000 else None}
         n += judge(ctx, text, cs, case, sigs, k_enc)
         ctx.sample({'map': e['file'], 'faults': kinds, 'text_head': text[:300]})
+    # directed: 5010 documents that carry a composite the guide lets repeat, with two or more components, under a header that names another
+    # repetition separator; one of the encodings puts '^' between the components
+    from vlib import refmap
+
+    def repeating(node):
+        return node.kind == 'comp' and node.repeat not in (None, '', '1')
+    for e in entries:
+        if e['icvn'] != '00501' or not ctx.mine(('rep', e['file'], e.get('tspc'))):
+            continue
+        if not any(repeating(nd) for nd in refmap.walk(gen_doc.load_map(e['file']))):
+            continue
+        done = 0
+        for t in range(12):
+            if done >= (1 if ctx.quick else 6):
+                break
+            try:
+                doc = gen_doc.gen_document(e, zlib.crc32(repr((ctx.seed, 'rep', e['file'], t)).encode()), n_st=1, n_gs=1, n_isa=1, charset='E', rich=False, fill=0.8, opt_prob=1.0, maxrep=1)
+            except gen_doc.GenFailed:
+                continue
+            if len(doc.recs) > 600:
+                continue
+            hit = False
+            for r_ in doc.recs:
+                for kid in getattr(r_.node, 'children', []):
+                    if repeating(kid) and kid.seq <= len(r_.vals) and isinstance(r_.vals[kid.seq - 1], list) and sum(1 for x in r_.vals[kid.seq - 1] if x != '') >= 2:
+                        hit = True
+            if not hit:
+                continue
+            used_ = reencode.data_chars(doc.text())
+            cands_ = [c for c in '!&+=;,?' if c not in used_]
+            if not cands_:
+                continue
+            for r_ in doc.recs:
+                if r_.node.id == 'ISA':
+                    r_.vals[10] = cands_[0]
+            if '^' in reencode.data_chars(doc.text()):
+                continue
+            done += 1
+            ctx.count('bases:repeatable-composite-with-several-components')
+            text = doc.text()
+            n += judge(ctx, text, 'E', {'map': e['file'], 'faults': ['directed:repeatable-composite'], 'charset': 'E', 'k': ['c12rep', e['file'], t], 'text': text if len(text) < 150000 else None}, sigs, max(k_enc, 4))
     ctx.case(n=n, sigs=sorted(sigs))
 
 
